@@ -277,17 +277,40 @@ Definition html_escape_attr_val (b : list Z) (oq : Z) (mq : bool) : result (list
   else if (d <? s) || ((s =? d) && negb (oq =? 39)) then esc_quoted (len b + 2 + d * 4) 34 ent_dq b
   else esc_quoted (len b + 2 + s * 4) 39 ent_sq b.
 
-Fixpoint xml_scan (l : list Z) (singles doubles : Z) : Z * Z :=
+Definition ent_tab : list Z := [38; 35; 57; 59].           (* &#9; *)
+Definition ent_lf : list Z := [38; 35; 49; 48; 59].        (* &#10; *)
+Definition ent_cr : list Z := [38; 35; 49; 51; 59].        (* &#13; *)
+
+Fixpoint xml_scan (l : list Z) (singles doubles whitespaces : Z) : Z * Z * Z :=
   match l with
-  | [] => (singles, doubles)
-  | c :: t => if c =? 34 then xml_scan t singles (doubles + 1)
-              else if c =? 39 then xml_scan t (singles + 1) doubles else xml_scan t singles doubles
+  | [] => (singles, doubles, whitespaces)
+  | c :: t => if c =? 34 then xml_scan t singles (doubles + 1) whitespaces
+              else if c =? 39 then xml_scan t (singles + 1) doubles whitespaces
+              else if (c =? 9) || (c =? 10) || (c =? 13) then xml_scan t singles doubles (whitespaces + 1)
+              else xml_scan t singles doubles whitespaces
   end.
 
+(* the copy loop of xml.EscapeAttrVal (since /repo a851768): the quote and TAB/LF/CR are written as references *)
+Fixpoint xesc_loop (n quote : Z) (ent l seg out : list Z) : list Z :=
+  match l with
+  | [] => app_cap n out seg
+  | c :: t =>
+      if c =? quote then xesc_loop n quote ent t [] (app_cap n (app_cap n out seg) ent)
+      else if (c =? 9) || (c =? 10) || (c =? 13) then
+        xesc_loop n quote ent t []
+          (app_cap n (app_cap n out seg) (if c =? 9 then ent_tab else if c =? 10 then ent_lf else ent_cr))
+      else xesc_loop n quote ent t (seg ++ [c]) out
+  end.
+Definition xesc_quoted (n quote : Z) (ent b : list Z) : result (list Z) :=
+  if n <? 1 then Panic else
+  let out := xesc_loop n quote ent b [] [quote] in
+  if len out <? n then Ok (out ++ [quote]) else Panic.
+
 Definition xml_escape_attr_val (b : list Z) : result (list Z) :=
-  let '(s, d) := xml_scan b 0 0 in
-  if s <? d then esc_quoted (len b + 2 + s * 4) 39 ent_sq b
-  else esc_quoted (len b + 2 + d * 4) 34 ent_dq b.
+  let '(s, d, w) := xml_scan b 0 0 0 in
+  let n := len b + 2 + w * 4 in
+  if s <? d then xesc_quoted (n + s * 4) 39 ent_sq b
+  else xesc_quoted (n + d * 4) 34 ent_dq b.
 
 Fixpoint cdata_cost (l : list Z) (n : Z) : option Z :=      (* None: declined *)
   match l with
@@ -456,7 +479,8 @@ Definition std_refs : list (list Z * Z) :=
     ([38; 35; 120; 50; 50; 59], 34);           (* &#x22; *)
     ([38; 35; 120; 50; 55; 59], 39);           (* &#x27; *)
     ([38; 35; 51; 56; 59], 38);                (* &#38; *)
-    ([38; 35; 54; 48; 59], 60) ].              (* &#60; *)
+    ([38; 35; 54; 48; 59], 60);                (* &#60; *)
+    (ent_tab, 9); (ent_lf, 10); (ent_cr, 13) ].
 
 (* strip the surrounding quotes of an attribute value as the lexers return it *)
 Definition unquote (v : list Z) : list Z :=
